@@ -140,7 +140,7 @@ def scope_switch(fn):
     return out
 
 
-def purge_loop_check(F, fn, glob_target, elem_ty_pred, source_pred):
+def purge_loop_check(F, fn, glob_target, elem_ty_pred, source_pred, _depth=0):
     """On the Global arm: a loop whose element references (type satisfying
     elem_ty_pred) defined inside the loop are all loop-variant, iterating over
     the stack (source_pred over origins of the iterator), passed on every path.
@@ -192,6 +192,31 @@ def purge_loop_check(F, fn, glob_target, elem_ty_pred, source_pred):
             if n.split("::")[-1] in ("fill", "fill_with", "for_each"):
                 if source_pred(flow.operand_origins(t["args"][0])):
                     idiom_blocks.append(b)
+    if not candidates and not idiom_blocks and _depth == 0:
+        # the arm may delegate to a helper of the same file that holds the loop (an extracted function): the helper as a whole is then
+        # held to the same standard, and every path through the arm must call it
+        from .common import same_file_callees
+        helper_blocks = []
+        msgs = []
+        for b in sorted(region):
+            tb = fn.blocks[b]["t"]
+            if tb["k"] != "call":
+                continue
+            c = tb.get("callee") or {}
+            for cid in (c.get("rid"), c.get("id")):
+                g = F.fns.get(cid) if cid else None
+                if g is not None and g.file == fn.file and g.id != fn.id:
+                    okh, msgh, loch = purge_loop_check(F, g, 0, elem_ty_pred, source_pred, _depth=1)
+                    if okh:
+                        helper_blocks.append(b)
+                        msgs.append("%s: %s" % (g.name, msgh))
+                    break
+        if helper_blocks:
+            outside = lambda b: (b not in region) or is_return(fn, b)
+            path = find_path(fn, [glob_target], outside, blocked=set(helper_blocks))
+            if path is not None and glob_target not in helper_blocks:
+                return False, "a path through the Scope::Global arm skips the purge helper: %s" % fmt_path(fn, path), fn.loc(fn.blocks[glob_target]["t"])
+            return True, "the arm delegates to a helper — " + "; ".join(msgs), fn.loc(fn.blocks[helper_blocks[0]]["t"])
     if not candidates and not idiom_blocks:
         return False, "the Scope::Global arm contains no loop over the group stack: a global assignment does not purge every open group", fn.loc(fn.blocks[glob_target]["t"])
     # the loop may only end when the iterator is exhausted: any other exit edge is a data-dependent early stop
